@@ -21,6 +21,7 @@ func c09Build() []fsx.Op {
 		{K: "WRITE", H: "root/a", Off: 0, Cnt: 4096, Pat: 0x11, Stable: 2},
 		{K: "WRITE", H: "root/a", Off: 7 * 4096, Cnt: 4096, Pat: 0x12, Stable: 2},
 		{K: "CREATEMANY", H: "root/d", N: "e", Cnt: 30}, // fills the first block of d (32 entries)
+		{K: "WRITE", H: "root/a", Off: 700 * 4096, Cnt: 1, Pat: 0x13, Stable: 2}, // sparse: a 700-block hole
 		{K: "CREATE", H: "root/d", N: "x"},
 		{K: "FILL"},
 		{K: "REMOVE", H: "root", N: "a"},
@@ -45,6 +46,10 @@ func c09Candidates() []fsx.Op {
 		{K: "RMDIR", H: "root", N: "d"}, {K: "REMOVE", H: "root", N: "d"}, {K: "RMDIR", H: "root", N: "a"},
 		{K: "CREATE", H: "dead:root/a", N: "z"}, {K: "WRITE", H: "dead:root/a", Off: 0, Cnt: 10, Pat: 1, Stable: 2},
 		{K: "READ", H: "root/a", Off: 4096, Cnt: 6 * 4096}, // hole-filling read without space
+		// transactions that fail only at commit because they exceed the journal (large disk)
+		{K: "READ", H: "root/a", Off: 8 * 4096, Cnt: 600 * 4096},                  // materialises 600 hole blocks at once
+		{K: "SYMLINK", H: "root", N: "biglink", Target: nameOfLen(520*4096, 't')},  // a 520-block link target
+		{K: "SETATTR", H: "root/a", Size: 3, Mtime: 5},
 	}
 }
 
